@@ -10,3 +10,4 @@ package jsonSubProto
 //@   property C12
 //@   requires[no-pending-refusal] !ghost.appendFailed
 //@   ensures[refusal-propagated] result == nil ==> !ghost.appendFailed
+//@   loop 0: invariant[no-refusal-yet] !ghost.appendFailed
